@@ -215,6 +215,9 @@ def run_history(case, ctx, res) -> None:  # noqa: ANN001
             if ok:
                 if c.sym_table != st.sym_table or c.sym_index != st.sym_index:
                     res.bad("clone-equal", "clone differs from the original")
+                # a copy is read through the same accessors as the original, before anything is added to it
+                _views(c, core.rng("views-of-clone", len(c.sym_table)), res)
+                res.counters["views_of_a_fresh_copy"] += 1
                 c.add_symbols(["only-in-clone"])
                 if "only-in-clone" in st.sym_index:
                     res.bad("clone-independent", "adding to the clone changed the original")
@@ -236,6 +239,9 @@ def run_history(case, ctx, res) -> None:  # noqa: ANN001
                     if i >= len(c.sym_table) or c.sym_table[i] != s or c.sym_index.get(s) != i:
                         res.bad("from-map", f"create_from_symbol_id_map({m}): id {i} does not decode to {s!r}: table {c.sym_table}")
                         break
+                if sorted(m.values()) == list(range(len(m))):
+                    _views(c, core.rng("views-of-map", len(m)), res)
+                    res.counters["views_of_a_fresh_copy"] += 1
                 c.add_symbols([])
         elif op[0] == "add_mp":
             ok, _ = drv.guard(res, "add_symbols_mp", st.add_symbols_mp, op[1])
